@@ -423,6 +423,52 @@ def last_bit_edge(zones):
     return False
 
 
+def _line_chords(poly, nx, ny, c, ux, uy):
+    """parameters (along the row direction u) at which the line n.x = c crosses the polygon, paired into chords; second value:
+    True if the line passes through a vertex of the polygon (within 1e-7 m)"""
+    ts, through_vertex = [], False
+    m = len(poly)
+    ds = [nx * q[0] + ny * q[1] - c for q in poly]
+    for i in range(m):
+        a, b, da, db = poly[i], poly[(i + 1) % m], ds[i], ds[(i + 1) % m]
+        if abs(da) < 1e-7:
+            through_vertex = True
+        if (da < 0) != (db < 0):
+            f = da / (da - db)
+            ts.append(ux * (a[0] + f * (b[0] - a[0])) + uy * (a[1] + f * (b[1] - a[1])))
+    ts.sort()
+    return [(ts[i], ts[i + 1]) for i in range(0, len(ts) - 1, 2)], through_vertex
+
+
+def row_diagnosis(lot, zones, s, rot_deg, point):
+    """for a misplaced borehole: is the row through it one (1) that passes through a vertex of a zone, or (2) on which a zone chord
+    shorter than the spacing lies closer than (spacing - chord)/2 to the next crossing or to the end of the row (the widening of
+    process_rows then moves a crossing past its neighbour)?"""
+    r = math.radians(rot_deg)
+    ux, uy, nx, ny = math.cos(r), math.sin(r), -math.sin(r), math.cos(r)
+    c = nx * point[0] + ny * point[1]
+    tp = ux * point[0] + uy * point[1]
+    lot_chords, _ = _line_chords(lot, nx, ny, c, ux, uy)
+    zone_chords, through = [], False
+    for z in zones or []:
+        ch, tv = _line_chords(z, nx, ny, c, ux, uy)
+        zone_chords += ch
+        through = through or tv
+    zone_chords.sort()
+    overshoot = False
+    if lot_chords:
+        lo, hi = min(lot_chords, key=lambda ch: 0.0 if ch[0] - 1.0 <= tp <= ch[1] + 1.0 else min(abs(tp - ch[0]), abs(tp - ch[1])))
+        inside = [ch for ch in zone_chords if ch[1] > lo and ch[0] < hi]
+        for i, (a, b) in enumerate(inside):
+            ln = b - a
+            if ln < s:
+                left = a - (inside[i - 1][1] if i > 0 else lo)
+                right = (inside[i + 1][0] if i + 1 < len(inside) else hi) - b
+                if min(left, right) < (s - ln) / 2.0:
+                    overshoot = True
+    return {"row_through_zone_vertex": through, "widened_chord_overshoots": overshoot}
+
+
 def place_zones(lot, spec, u_deg, s, unrounded=False):
     """spec: list of (shape kind, position along the arrangement axis in spacings, position across it in spacings, 'ccw'|'cw');
     the arrangement axis goes through the lot's centroid at angle u_deg"""
@@ -506,7 +552,8 @@ def run_nogo(case, res):
                     res["violations"].append(core.viol("empty_field", c1, msg=f"no-go zones {case['zones']}: no borehole generated", nogo=case["zones"], last_bit_edge=lbe))
                 elif not ok.all():
                     q = pts[~ok][0]
-                    res["violations"].append(core.viol("borehole_outside_lot", dict(c1, point=[float(q[0]), float(q[1])]), msg=f"no-go {case['zones']}: borehole ({q[0]:.4f}, {q[1]:.4f}) outside the lot", what="nogo"))
+                    res["violations"].append(core.viol("borehole_outside_lot", dict(c1, point=[float(q[0]), float(q[1])]), msg=f"no-go {case['zones']}: borehole ({q[0]:.4f}, {q[1]:.4f}) outside the lot", what="nogo",
+                                                       perimeter=perimeter, last_bit_edge=lbe, **row_diagnosis(lot, zones, s, rot, q)))
                 for zi, z in enumerate(zones):
                     bad = strictly_inside_convex(_ccw(z), pts, margin=1e-6)
                     if bad.any():
@@ -514,7 +561,7 @@ def run_nogo(case, res):
                         res["violations"].append(core.viol("borehole_inside_no_go", dict(c1, point=[float(q[0]), float(q[1])]),
                                                            msg=f"zones {case['zones']} (axis {u} deg), lot {case['lot']}, spacing {s}, rotation {rot}, perimeter={perimeter}: borehole "
                                                                f"({q[0]:.4f}, {q[1]:.4f}) lies strictly inside no-go zone #{zi} {z} ({int(bad.sum())} such boreholes)",
-                                                           what="nogo-family", nogo=case["zones"], perimeter=perimeter, last_bit_edge=lbe))
+                                                           what="nogo-family", nogo=case["zones"], perimeter=perimeter, last_bit_edge=lbe, **row_diagnosis(lot, zones, s, rot, q)))
                         break
                 res.outcome("nogo_generated")
                 res["nontrivial"] += 1
@@ -604,13 +651,15 @@ def run_demo(case, res):
         if (cl < 0).any():
             q = pts[cl < 0][0]
             res["violations"].append(core.viol("borehole_outside_lot", dict(c1, point=[float(q[0]), float(q[1])]), msg=f"demo outline, spacing {s}, {what}, perimeter {case['perimeter']}: borehole ({q[0]:.4f}, {q[1]:.4f}) "
-                                               f"lies outside the outline ({int((cl < 0).sum())} of {len(pts)})", what="demo"))
+                                               f"lies outside the outline ({int((cl < 0).sum())} of {len(pts)})", what="demo", perimeter=case["perimeter"], last_bit_edge=False,
+                                               **(row_diagnosis(DEMO_OUTLINE, zones, s, float(what.split()[1]), q) if what.startswith("rotation") else {})))
         if zones:
             cz = classify_points(DEMO_NOGO, pts)
             if (cz > 0).any():
                 q = pts[cz > 0][0]
                 res["violations"].append(core.viol("borehole_inside_no_go", dict(c1, point=[float(q[0]), float(q[1])]), msg=f"demo outline, spacing {s}, {what}, perimeter {case['perimeter']}: borehole ({q[0]:.4f}, {q[1]:.4f}) "
-                                                   f"lies inside the demo no-go polygon ({int((cz > 0).sum())} of {len(pts)})", what="demo", nogo="demo_polygon", perimeter=case["perimeter"], last_bit_edge=False))
+                                                   f"lies inside the demo no-go polygon ({int((cz > 0).sum())} of {len(pts)})", what="demo", nogo="demo_polygon", perimeter=case["perimeter"], last_bit_edge=False,
+                                                   **(row_diagnosis(DEMO_OUTLINE, zones, s, float(what.split()[1]), q) if what.startswith("rotation") else {})))
         res.outcome("demo_generated")
         res["nontrivial"] += 1
     res["sample"] = dict(case)
